@@ -379,6 +379,32 @@ func (fr *Frame) libModel(st *State, f *ssa.Function, args []*Term, in ssa.Instr
 			tag = 999002
 		}
 		return []*Term{MkIface(IntLit64(tag), ref)}, true
+	case "sync/atomic.Value.Store", "sync/atomic.Value.Load":
+		// an atomic.Value is a cell holding an interface value, identified by its address
+		var m *Term
+		cls := "A:*"
+		if c != nil && len(c.Args) > 0 {
+			if a, ok := fr.addrs[c.Args[0]]; ok {
+				if a.kind == "field" && len(a.path) == 0 {
+					// one class per struct field holding an atomic.Value, keyed by the object
+					cls = "A:" + a.class
+					m = a.base
+				} else {
+					m = addrTerm(a)
+				}
+			}
+		}
+		if m == nil {
+			m = args[0]
+		}
+		h := fc.get(st, cls, SArr(SRef, SIface))
+		if strings.HasSuffix(name, "Store") {
+			st.heap[cls] = Store(h, m, args[1])
+			return nil, true
+		}
+		v := Select(h, m)
+		fr.typeInv(st, v, f.Signature.Results().At(0).Type())
+		return []*Term{v}, true
 	case "sync.Mutex.Lock", "sync.RWMutex.Lock", "sync.RWMutex.RLock", "sync.Mutex.Unlock", "sync.RWMutex.Unlock", "sync.RWMutex.RUnlock":
 		var m *Term
 		if c != nil && len(c.Args) > 0 {
